@@ -133,7 +133,13 @@ func (sr *suiteRun) netFor(noFwd bool) *simnet.Net {
 	if n := sr.nets[noFwd]; n != nil {
 		return n
 	}
-	opts := []server.ServerOpt{server.WithVRFs(sr.e.sc.Cfg.VRFs)}
+	vrfs := append([]string(nil), sr.e.sc.Cfg.VRFs...)
+	if d := sr.e.sc.Cfg.Default; d != "" && d != server.DefaultNetworkInstanceName {
+		// The server package fixes the name of its own default instance; the instance the SUITE is told to
+		// treat as the default one (cmd/ccli -default_ni_name) is then another instance of the same server.
+		vrfs = append(vrfs, d)
+	}
+	opts := []server.ServerOpt{server.WithVRFs(vrfs)}
 	if noFwd || !sr.e.sc.Cfg.FwdRefs {
 		opts = append(opts, server.WithNoRIBForwardReferences())
 	}
@@ -141,7 +147,6 @@ func (sr *suiteRun) netFor(noFwd bool) *simnet.Net {
 	if err != nil {
 		panic(err)
 	}
-	// the reference device names its default instance by configuration; the server package fixes it
 	n := &simnet.Net{Srv: s}
 	if sr.fault != "" {
 		installFault(sr, n, s, sr.fault)
@@ -152,7 +157,10 @@ func (sr *suiteRun) netFor(noFwd bool) *simnet.Net {
 
 func runSuite(e *env) {
 	sr := &suiteRun{e: e, nets: map[bool]*simnet.Net{}, srvs: map[bool]*server.Server{}, results: map[string]bool{}, msgs: map[string][]string{}, fired: map[string]bool{}}
-	compliance.SetDefaultNetworkInstanceName(server.DefaultNetworkInstanceName) // the in-memory server's default instance name is fixed
+	compliance.SetDefaultNetworkInstanceName(server.DefaultNetworkInstanceName)
+	if d := e.sc.Cfg.Default; d != "" {
+		compliance.SetDefaultNetworkInstanceName(d)
+	}
 	compliance.SetNonDefaultVRFName(e.sc.Cfg.VRFs[0])
 	compliance.SetElectionID(1)
 	for i := range e.sc.Steps {
